@@ -95,7 +95,7 @@ def _run_conc(case):
 
     def make_bodies(s):
         fs = SimFS()
-        env.bf3file.open = fs.open
+        env.use_fs(fs)
         holders.append(fs)
 
         def body(i):
@@ -151,7 +151,7 @@ def run(case):
     out = Outcome()
     fs = SimFS()
     env.restore_registry()
-    env.bf3file.open = fs.open
+    env.use_fs(fs)
     acked = {}  # name -> (obj index, key index) | None
     hist = {}   # name -> info about history for probes
     lastread = {}  # name -> (object returned by the last read, obj index)
